@@ -4,6 +4,17 @@ import json, os
 R = os.path.dirname(os.path.dirname(os.path.abspath(__file__)))
 claims = json.load(open(os.path.join(R, "tools", "claims.json")))
 props = [json.loads(l) for l in open(os.path.join(R, "properties.jsonl"))]
+# the claim texts are those of lib/meta.py (the same texts the checks write into the evidence files): keep claims.json in step
+import importlib.util
+_spec = importlib.util.spec_from_file_location("meta", os.path.join(R, "lib", "meta.py"))
+_meta = importlib.util.module_from_spec(_spec); _spec.loader.exec_module(_meta)
+for pid, m in _meta.META.items():
+    if pid in claims and not claims[pid].get("not_applicable"):
+        claims[pid]["text"] = ("Bounded symbolic verification, not a proof: " + m["explanation"] +
+                               " A verdict holds only inside the bounds stated per obligation in the evidence file; INCONCLUSIVE obligations are counted as not discharged.")
+        claims[pid]["note"] = ("Assumptions: " + "; ".join(m.get("assumptions") or ["none"]) + ". Outside the claim: " + "; ".join(m.get("outside") or ["nothing further"]) +
+                               ". Trusted: " + "; ".join(m.get("trusted") or []))
+json.dump(claims, open(os.path.join(R, "tools", "claims.json"), "w"), indent=1)
 checks = []; na = []
 for p in props:
     c = claims.get(p["id"])
